@@ -32,7 +32,7 @@ func Run(c *core.Ctx) int {
 	} else {
 		n := c.Pick(4000, 300000)
 		for len(docs) < n {
-			o := calcproto.GenOpts{NoBreakdown: true, NoForeign: len(docs)%3 != 0}
+			o := calcproto.GenOpts{NoBreakdown: true, NoForeign: len(docs)%3 != 0, ZeroRates: true}
 			if c.Thorough() && len(docs)%10 == 0 {
 				o.MaxLines = 40
 			}
